@@ -181,11 +181,14 @@ def conflicting_program(r):
     c = 1
     cons = []
     t = r.randint(1, nt)
-    kind = r.choice(['two_starts', 'window', 'cycle', 'workload', 'unavailable'] if any(o[0] == 'OAddRequired' for o in prog)
-                    else ['two_starts', 'window', 'cycle'])
+    kind = r.choice(['two_starts', 'window', 'cycle', 'optional_forced', 'workload', 'unavailable'] if any(o[0] == 'OAddRequired' for o in prog)
+                    else ['two_starts', 'window', 'cycle', 'optional_forced'])
     Z, N, P = terms.Z, terms.N, terms.P
     if kind == 'two_starts':
         cons += [('CStartAt', N(t), Z(0)), ('CStartAt', N(t), Z(1))]
+    elif kind == 'optional_forced':
+        # the conflict goes through an optional constraint that a force-apply rule obliges the solver to apply
+        cons += [('CStartAt', N(t), Z(0))]
     elif kind == 'window':
         cons += [('CStartAfter', N(t), Z(4), False), ('CEndBefore', N(t), Z(3), False)]
     elif kind == 'cycle':
@@ -212,6 +215,10 @@ def conflicting_program(r):
     for e in cons:
         prog.append(('ONewConstraint', N(c), False, e))
         c += 1
+    if kind == 'optional_forced':
+        prog.append(('ONewConstraint', N(c), True, ('CStartAt', N(t), Z(1))))
+        prog.append(('ONewConstraint', N(c + 1), False, ('CForceApplyN', [N(c)], Z(1), (r.choice(['PbExact', 'PbMin']),))))
+        c += 2
     if r.random() < 0.3:
         prog = [o for o in prog]   # feasible variant: drop one of the conflicting constraints later in run_debug
     return prog
@@ -228,8 +235,17 @@ def observe_setup(args):
     import compare
     out = {'idx': idx, 'error': None, 'per_cfg': []}
     try:
+        # every third case: a constraint that carries the name of an optional task's scheduled flag (a legitimate name: the
+        # library keeps constraint names and z3 constants apart; an option must not make them meet)
+        naming = impl.default_naming
+        opt_ids = [o[1][1] for o in prog if o[0] == 'ONewTask' and o[3] is True]
+        con_ids = [o[1][1] for o in prog if o[0] == 'ONewConstraint']
+        if idx % 3 == 0 and opt_ids and con_ids:
+            tgt = 'T%d_scheduled' % opt_ids[0]
+            naming = (lambda k, i, _c=con_ids[0], _t=tgt: _t if (k == 'K' and i == _c) else impl.default_naming(k, i))
+        out['naming'] = 'flag-named constraint' if naming is not impl.default_naming else 'default'
         for c in cfgs:
-            im = impl.Impl()
+            im = impl.Impl(naming=naming)
             res = im.run(prog)
             if res[0] != 'ok' or im.pb is None:
                 out['status'] = 'rejected'
@@ -266,7 +282,8 @@ def observe_setup(args):
                 # the debug map: tracked literal -> constraint name
                 if tracked:
                     m = solver._map_boolrefs_to_constraints
-                    rec['map'] = [m.get(ev[2]) for ev in tracked]
+                    back_names = {naming('K', ci): 'K%d' % ci for ci in im.cons}
+                    rec['map'] = [back_names.get(nm0, nm0) for nm0 in (m.get(ev[2]) for ev in tracked)]
                 if do_solve:
                     with contextlib.redirect_stdout(io.StringIO()), warnings.catch_warnings():
                         warnings.simplefilter('ignore')
@@ -360,8 +377,7 @@ def run(ctx, replay=None):
     small = [i < (n * 2 // 3) or cfg['mode'] == 'debug' or replay is not None for i in range(len(progs))]
     t1 = time.time()
     jobs = [(i, p, cfgsets[i], None, ctx.seed, small[i]) for i, p in enumerate(progs)]
-    with mp.get_context('fork').Pool(16) as pool:
-        results = pool.map(observe_setup if cfg['mode'] == 'options' else observe_debug, jobs, chunksize=1)
+    results = common.pmap(observe_setup if cfg['mode'] == 'options' else observe_debug, jobs)
     t_impl = time.time() - t1
     # model side: one set-up report per (program, configuration)
     flat = []
@@ -381,8 +397,10 @@ def run(ctx, replay=None):
     if kernel_mismatch:
         path = common.write_replay(ctx, 'extraction', {'kind': 'extraction-vs-kernel', 'cases': kernel_mismatch[:3]})
         common.violation(ctx, path, found_input=False)
-    with mp.get_context('fork').Pool(16) as pool:
-        cmp = pool.map(compare_case, [(ctx.prop, progs[i], rec, rep) for (i, k, rec), rep in zip(flat, reps)], chunksize=4)
+    cmp = common.pmap(compare_case, [(ctx.prop, progs[i], rec, rep) for (i, k, rec), rep in zip(flat, reps)])
+    for d_ in cmp:
+        if d_.get('crashed'):
+            d_['diffs'] = [('harness-error', d_['error'])]
     stats = collections.Counter()
     breaks, viol = [], []
     for (i, k, rec), d in zip(flat, cmp):
@@ -698,13 +716,30 @@ def observe_debug(args):
                 for nm in names:
                     if nm not in cons_names:
                         probs.append(('reported-not-a-constraint', nm))
-                # re-solve: the listed constraints + every non-constraint rule
-                owner = rec['map']
+                # re-solve: the listed constraints + every non-constraint rule.  Which assertions belong to constraints is decided
+                # here from the constraints' own assertion lists (a multiset: z3 shares identical formulas), not from the
+                # solver's tracking map, which is what is being checked
+                import collections as _c
+                cons_ids = _c.Counter()
+                for cn, cobj in im.pb.constraints.items():
+                    if getattr(cobj, '_created_from_assertion', False):
+                        continue
+                    for ca in cobj.get_z3_assertions():
+                        cons_ids[ca.get_id()] += 1
                 s2 = sp.ORIG_SOLVER()
                 s2.set('timeout', 15000)
-                for nm, a in zip(owner, A_raw):
-                    if nm is None or nm in names:
+                n_basic = 0
+                for a in A_raw:
+                    if cons_ids[a.get_id()] > 0:
+                        cons_ids[a.get_id()] -= 1
+                    else:
                         s2.add(a)
+                        n_basic += 1
+                rec['basic_rules'] = n_basic
+                for nm in set(names):
+                    if nm in im.pb.constraints:
+                        for ca in im.pb.constraints[nm].get_z3_assertions():
+                            s2.add(ca)
                 r2 = s2.check()
                 if r2 == z3.sat:
                     probs.append(('reported-constraints-do-not-conflict', names))
